@@ -759,7 +759,99 @@ func (c *Ctx) checkDefFragment(fn *ssa.Function, loops []*mapLoop) string {
 			return "VIOLATION: called from inside a loop in " + load.FnName(e.Caller) + ": definitions are applied before the whole file was read, so a definition that comes later in the file is not substituted into text that was already expanded (the result depends on the order of the definition lines)"
 		}
 	}
+	// and the call is skipped only when there is nothing to expand
+	for _, e := range c.Graph().In[fn] {
+		cc := callCommon(e.Site)
+		if cc == nil || staticFn(cc) != fn {
+			continue
+		}
+		S := e.Site.Block()
+		reachS := blocksReaching(S)
+		for d := S.Idom(); d != nil; d = d.Idom() {
+			iff, ok := d.Instrs[len(d.Instrs)-1].(*ssa.If)
+			if !ok || len(d.Succs) != 2 {
+				continue
+			}
+			for _, o := range d.Succs {
+				if reachS[o] || o == S {
+					continue
+				}
+				if !c.reachesNormalReturn(o) {
+					continue // a failure exit, not a way around the call
+				}
+				cond, _ := unwrapNot(iff.Cond)
+				if !isLenTestOfArg(cond, cc.Args) {
+					return "VIOLATION: the expansion in " + load.FnName(e.Caller) + " is skipped under a condition other than 'no definitions' (" + c.P.InstrPos(iff) + "): references that the condition does not anticipate stay in the text as literal {{name}}"
+				}
+			}
+		}
+	}
 	return ""
+}
+
+// blocksReaching: blocks from which b is reachable.
+func blocksReaching(b *ssa.BasicBlock) map[*ssa.BasicBlock]bool {
+	out := map[*ssa.BasicBlock]bool{}
+	stack := append([]*ssa.BasicBlock(nil), b.Preds...)
+	for len(stack) > 0 {
+		x := stack[len(stack)-1]
+		stack = stack[:len(stack)-1]
+		if out[x] {
+			continue
+		}
+		out[x] = true
+		stack = append(stack, x.Preds...)
+	}
+	return out
+}
+
+// reachesNormalReturn: a Return is reachable from b without passing a loud exit.
+func (c *Ctx) reachesNormalReturn(b *ssa.BasicBlock) bool {
+	lm := c.Loud()
+	seen := map[*ssa.BasicBlock]bool{}
+	stack := []*ssa.BasicBlock{b}
+	for len(stack) > 0 {
+		x := stack[len(stack)-1]
+		stack = stack[:len(stack)-1]
+		if seen[x] {
+			continue
+		}
+		seen[x] = true
+		if lm.BlockDies(x) {
+			continue
+		}
+		if _, ok := x.Instrs[len(x.Instrs)-1].(*ssa.Return); ok {
+			return true
+		}
+		stack = append(stack, x.Succs...)
+	}
+	return false
+}
+
+// isLenTestOfArg: cond is len(X) compared with a constant, X one of the call's arguments
+// (the same value, or a load of the same field).
+func isLenTestOfArg(cond ssa.Value, args []ssa.Value) bool {
+	b, ok := cond.(*ssa.BinOp)
+	if !ok {
+		return false
+	}
+	var lenOp ssa.Value
+	for _, side := range []ssa.Value{b.X, b.Y} {
+		if call, ok := side.(*ssa.Call); ok {
+			if bi, ok := call.Call.Value.(*ssa.Builtin); ok && bi.Name() == "len" {
+				lenOp = call.Call.Args[0]
+			}
+		}
+	}
+	if lenOp == nil {
+		return false
+	}
+	for _, a := range args {
+		if a == lenOp || sameLoad(a, lenOp) {
+			return true
+		}
+	}
+	return false
 }
 
 // inCycle: can the block reach itself?
@@ -839,6 +931,9 @@ func (c *Ctx) RuleNondetSrc(commands []string) *Result {
 				case *ssa.UnOp:
 					if x.Op == token.ARROW {
 						what = "channel receive"
+					}
+					if g, ok := x.X.(*ssa.Global); ok && x.Op == token.MUL && g.Pkg != nil && g.Pkg.Pkg.Path() == "os" && g.Name() == "Args" {
+						what = "os.Args (how the process was started)"
 					}
 				case *ssa.Call:
 					f := staticCallee(&x.Call)
